@@ -155,6 +155,16 @@ func Bytes32(name string) (out [32]byte) {
 	return
 }
 
+// ForgedSig returns 64 adversary-chosen bytes that are not a valid signature
+// of anything (natively: the model's bytes, which are not a valid Ed25519
+// signature except with negligible probability).
+func ForgedSig(name string) (s [64]byte) {
+	a, b := Bytes32(name+".a"), Bytes32(name+".b")
+	copy(s[:32], a[:])
+	copy(s[32:], b[:])
+	return
+}
+
 type pruned struct{ why string }
 
 // Assume restricts the inputs; natively a violated assumption aborts the replay.
